@@ -9,7 +9,8 @@ from .. import core, ctx as _ctx, build, driver, gen, model as _model, addrgen a
 
 PROP = "C06"
 FAMILIES = ["dots", "ats", "quotes", "backslashes", "v4", "colons", "v6groups", "longlabel", "labels", "utf8", "utf8dom", "crlf",
-            "qwords", "brackets", "hyphens"]
+            "qwords", "brackets", "hyphens", "labels-reserved", "local-literal", "open-brackets", "zeros-literal", "escaped-quotes", "dots-then-error",
+            "spaces"]
 ENTRIES_Q = ["eav822", "eav5321", "eav5322", "eav6531", "udom", "ipaddr", "special", "adom"]
 ENTRIES_T = ENTRIES_Q + ["l822", "l5321", "l5322", "l6531", "tld"]
 
